@@ -737,6 +737,10 @@ pub(crate) fn twist_point_add_full(p1: &TwistPoint, p2: &TwistPoint) -> TwistPoi
 }
 
 pub(crate) fn sm9_u256_pairing(q: &TwistPoint, p: &Point) -> Fp12 {
+    // e(O, Q) = e(P, O) = 1 (bilinearity); the Miller loop below does not handle the identity (it returned 0 for Q = O)
+    if q.z.is_zero() || p.is_zero() {
+        return Fp12::one();
+    }
     let abits: Vec<char> = "00100000000000000000000000000000000000010000101100020200101000020"
         .chars()
         .collect();
